@@ -130,6 +130,11 @@ def answer (toks : List String) : String :=
     if crossAdmissible (ofMat (boolMat c)) (pairs links) then "1" else "0"
   | ["simplify", nn, es] =>
     showBoolMat (toMat (simplified (pairs es)) nn.toNat! nn.toNat!)
+  | ["ercall", hp, hm] =>
+    match erdosRenyiCall (hp == "1") (hm == "1") with
+    | none => "raise:ValueError"
+    | some .byProbability => "p"
+    | some .byLinkCount => "m"
   | ["edges", nn, es] =>
     match fromEdges nn.toNat! (pairs es) with
     | none => "raise:ValueError"
